@@ -293,18 +293,23 @@ def _norm_forms(e, pol, out, depth=0):
         op, l, r = e.ops[0], e.left, e.comparators[0]
         neg = {ast.IsNot: ast.Is, ast.NotEq: ast.Eq, ast.NotIn: ast.In}.get(type(op))
         if neg is not None:
+            if not isinstance(op, ast.NotIn):
+                out.add((U(ast.Compare(left=r, ops=[op], comparators=[l])), pol))     # mirrored  b != a / b is not a
             e2 = ast.Compare(left=l, ops=[neg()], comparators=[r])
             _norm_forms(e2, not pol, out, depth + 1)
             return
-        if isinstance(l, ast.Constant) and not isinstance(r, ast.Constant):
-            if type(op) in _FLIP:
-                e2 = ast.Compare(left=r, ops=[_FLIP[type(op)]()], comparators=[l])
-                out.add((U(e2), pol))
-            elif isinstance(op, (ast.Eq, ast.Is)):
-                e2 = ast.Compare(left=r, ops=[op], comparators=[l])
-                out.add((U(e2), pol))
-        elif isinstance(op, (ast.Eq,)) and not isinstance(r, ast.Constant) and U(l) > U(r):
+        if type(op) in _FLIP:
+            # a < b  ==  b > a   (both orientations are listed)
+            out.add((U(ast.Compare(left=r, ops=[_FLIP[type(op)]()], comparators=[l])), pol))
+            # not (a < b) == a >= b for totally ordered operands (numbers): listed with the opposite polarity
+            NEG = {ast.Lt: ast.GtE, ast.LtE: ast.Gt, ast.Gt: ast.LtE, ast.GtE: ast.Lt}
+            out.add((U(ast.Compare(left=l, ops=[NEG[type(op)]()], comparators=[r])), not pol))
+            out.add((U(ast.Compare(left=r, ops=[_FLIP[NEG[type(op)]]()], comparators=[l])), not pol))
+        elif isinstance(op, (ast.Eq, ast.Is)):
             out.add((U(ast.Compare(left=r, ops=[op], comparators=[l])), pol))
+            nop = ast.NotEq() if isinstance(op, ast.Eq) else ast.IsNot()
+            out.add((U(ast.Compare(left=l, ops=[nop], comparators=[r])), not pol))
+            out.add((U(ast.Compare(left=r, ops=[nop], comparators=[l])), not pol))
     if isinstance(e, ast.Call) and isinstance(e.func, ast.Name) and e.func.id == 'bool' and len(e.args) == 1:
         _norm_forms(e.args[0], pol, out, depth + 1)
 
@@ -594,6 +599,75 @@ def call_postconditions(run, g, n, depth=0):
     return out
 
 
+_HP_CACHE = {}
+
+
+def helper_paths(run, g, n, depth=0):
+    """For the calls in node n to private helpers of the same object (self._h(...)): the condition sets of the
+    helper's normal paths, re-expressed in the caller's terms: [(set of literals, [groups])].  Several helper calls in
+    one node are combined.  [] when the node calls no such helper."""
+    combos = None
+    for c in n.calls:
+        ts = _helper_targets(run, g, c)
+        if len(ts) != 1 or len(run.types.call_targets(c, g.ctx)) != 1:
+            continue
+        t = ts[0]
+        fi = t.func
+        key = (fi.qual, t.recv)
+        ent = _HP_CACHE.get(key)
+        if ent is None or ent[0] is not run:
+            _HP_CACHE[key] = (run, [])
+            try:
+                cg = run.cfg(fi.qual, t.recv)
+                pcs = path_conditions(run, cg, g_rd(cg), cg.entry, cg.exit, limit=200, _depth=depth + 1)
+            except AnalysisError:
+                pcs = []
+            _HP_CACHE[key] = (run, pcs)
+            ent = _HP_CACHE[key]
+        pcs = ent[1]
+        if not pcs or len(pcs) > 24:
+            continue
+        params = [p_ for p_ in fi.params if p_ not in ('self', 'cls')]
+        amap = {}
+        for p_ in params:
+            a = arg_of(c, fi, p_)
+            if a is not None:
+                amap[p_] = a
+
+        def conv(txt):
+            try:
+                e = ast.parse(txt, mode='eval').body
+            except SyntaxError:
+                return None
+            free = names_in(e) - {'self', 'cls'}
+            locs = run.types.locals_of(fi)
+            if (free & locs) - set(amap):
+                return None                   # mentions a helper-local that is not a parameter
+            return U(_Subst(lambda nm: amap.get(nm)).visit(e))
+        these = []
+        for l in pcs:
+            lits = set()
+            for (txt, pol) in l:
+                ct = conv(txt)
+                if ct is not None:
+                    lits.add((ct, pol))
+            groups = []
+            for (tn, pol, forms) in getattr(l, 'groups', ()):
+                f2 = set()
+                for (txt, p2) in forms:
+                    ct = conv(txt)
+                    if ct is not None:
+                        f2.add((ct, p2))
+                if f2:
+                    groups.append((tn, pol, frozenset(f2)))
+            these.append((lits, groups))
+        if combos is None:
+            combos = these
+        else:
+            combos = [(a[0] | b[0], a[1] + b[1]) for a in combos for b in these][:64]
+    return combos or []
+
+
 def path_conditions(run, g, rd, start, target, limit=5000, through_exc=False, prune=True, _depth=0):
     """Literal sets of every simple path start -> target (non-exception edges).  Each element is a ``Lits`` frozenset
     of (text, polarity) containing every equivalent form of each atom; ``.groups`` lists the atoms one by one."""
@@ -637,8 +711,14 @@ def path_conditions(run, g, rd, start, target, limit=5000, through_exc=False, pr
                 grp = groups + [(n, l == 'true', frozenset(add))]
             elif n.calls and n.kind in ('stmt', 'test') and _depth < 2:
                 if post is None:
-                    post = call_postconditions(run, g, n, _depth)
-                add = post
+                    post = helper_paths(run, g, n, _depth)
+                if post:
+                    # splice each normal path of the helper(s) into this path
+                    for (hl, hg) in post:
+                        if prune and any((t, not p) in lits for (t, p) in hl):
+                            continue
+                        rec(m, seen | {m}, lits | hl, groups + hg, env2)
+                    continue
             rec(m, seen | {m}, lits | add, grp, env2)
     rec(start, {start}, set(), [], {})
     return out
@@ -1180,3 +1260,37 @@ def lift_arg(run, site_g, site_node, expr, chain):
             break
         g, n, e = cg, cn, a
     return g, n, e
+
+
+# ------------------------------------------------------------------------------ small boolean evaluator
+def bool_table(e, atoms):
+    """Truth table of boolean expression e over the given atom texts (others -> None).  Returns tuple of bools in
+    the order of itertools.product([False, True], repeat=len(atoms)), or None if e is not a pure formula of them."""
+    import itertools
+
+    def ev(x, env):
+        t = U(x)
+        if t in env:
+            return env[t]
+        if isinstance(x, ast.UnaryOp) and isinstance(x.op, ast.Not):
+            return not ev(x.operand, env)
+        if isinstance(x, ast.BoolOp):
+            vals = [ev(v, env) for v in x.values]
+            return all(vals) if isinstance(x.op, ast.And) else any(vals)
+        if isinstance(x, ast.Constant) and isinstance(x.value, bool):
+            return x.value
+        if isinstance(x, ast.Call) and U(x.func) == 'bool' and len(x.args) == 1:
+            return bool(ev(x.args[0], env))
+        raise ValueError(t)
+    out = []
+    for vals in itertools.product([False, True], repeat=len(atoms)):
+        try:
+            out.append(bool(ev(e, dict(zip(atoms, vals)))))
+        except ValueError:
+            return None
+    return tuple(out)
+
+
+def call_args_by_name(call, func):
+    """[expr or None] for each non-self parameter of func, positional or keyword."""
+    return [arg_of(call, func, p) for p in func.params if p not in ('self', 'cls')]
